@@ -374,7 +374,8 @@ def _sites(frame, limit=12):
                     extra = "[packsizes=%d]" % len(slf.packsizes)
                 except Exception:  # noqa
                     pass
-            out.append("%s%s%s|%s" % (cls, f.f_code.co_name, extra, linecache.getline(fn, f.f_lineno).strip()[:80]))
+            out.append("%s%s%s|%s|after: %s" % (cls, f.f_code.co_name, extra, linecache.getline(fn, f.f_lineno).strip()[:80],
+                                               linecache.getline(fn, f.f_lineno - 1).strip()[:60]))
         f = f.f_back
     return out
 
@@ -455,9 +456,13 @@ class _NullFactory(py7zr.io.WriterFactory):
         return _NullWriter(self.counter)
 
 
-def _rss_mb():
+def _rss_kb():
     with open("/proc/self/statm") as f:
-        return int(f.read().split()[1]) * (os.sysconf("SC_PAGE_SIZE") // 1024) // 1024
+        return int(f.read().split()[1]) * (os.sysconf("SC_PAGE_SIZE") // 1024)
+
+
+def _rss_mb():
+    return _rss_kb() // 1024
 
 
 def _do_op(z, op):
@@ -513,7 +518,7 @@ def child_batch(arg):
     stop = threading.Event()
 
     def watcher():
-        while not stop.wait(0.03):
+        while not stop.wait(0.01):
             if state["armed"] and _rss_mb() - state["base"] > rss_limit:
                 state["armed"] = False
                 fr = sys._current_frames().get(main_id)
@@ -653,7 +658,7 @@ def classify(op, status, detail, ops_before):
         return ("alloc", "numstreams-without-sizes") if "PackInfo._read[packsizes=0]" in s else ("quadratic", "packpositions")
     if "for _ in range(numfiles)" in s:
         return ("alloc", "numfiles")
-    if "SubstreamsInfo._read" in s:
+    if "SubstreamsInfo._read" in s or "after: self.substreamsinfo = SubstreamsInfo.retrieve" in s:
         return ("alloc", "substreams-count")
     if "Header._read|folder_data += decompressor.decompress" in s or \
             ("Header._read" in s and "SevenZipDecompressor" in s and "Worker.decompress" not in s):
@@ -888,7 +893,9 @@ class _Fuel(Exception):
 
 def toy_decompressor(states, us, isz, bsz, fuel):
     from py7zr.compressor import SevenZipDecompressor
-    d = object.__new__(SevenZipDecompressor)
+    # the real constructor (Copy coder) initialises every attribute; then the chain is replaced by toy stages
+    copy = {"method": b"\x00", "numinstreams": 1, "numoutstreams": 1, "properties": None}
+    d = SevenZipDecompressor([copy], isz, [us[-1]], None, None, bsz)
     d.chain = [ToyStage(*s) for s in states]
     d._unpacksizes = list(us)
     d._unpacked = [0 for _ in us]
@@ -1179,8 +1186,11 @@ def child_measure(arg):
     """open one archive (and run ops) without any instrumentation; report wall time and peak RSS"""
     import resource
     data = bytes.fromhex(arg["a"])
-    base = resource.getrusage(resource.RUSAGE_SELF).ru_maxrss // 1024
+    import gc
+    gc.collect()
+    base_kb = _rss_kb()
     t0, c0 = time.time(), time.process_time()
+    z = None
     try:
         z = py7zr.SevenZipFile(io.BytesIO(data), "r")
         for op in arg.get("ops", []):
@@ -1190,8 +1200,10 @@ def child_measure(arg):
         st = "MemoryError"
     except Exception as e:  # noqa
         st = type(e).__name__
+    # resident memory held by what the call built (the archive object is still alive here)
     return {"status": st, "time": round(time.process_time() - c0, 3), "wall": round(time.time() - t0, 3),
-            "rss_mb": resource.getrusage(resource.RUSAGE_SELF).ru_maxrss // 1024 - base, "bytes": len(data)}
+            "rss_mb": round((_rss_kb() - base_kb) / 1024.0, 1), "peak_mb": resource.getrusage(resource.RUSAGE_SELF).ru_maxrss // 1024,
+            "bytes": len(data)}
 
 
 def measure_blowups(rep, tier):
